@@ -175,16 +175,23 @@ def check_spatial(ctx, case):
         elif cands:
             amb.add(i)   # within slack of a boundary: either answer is admissible (C01 covers these)
             ctx.count("ambiguous_points_left_out")
+    # a different region the catalog may already be bound to: one cell far away (keeps nothing) or the bounding box grown by a cell
+    from csep.core.regions import CartesianGrid2D
+    other_far = CartesianGrid2D.from_origins(numpy.array([[L.ex[0] - 20 * L.fdh, L.ey[0]]]), dh=L.fdh)
+    grown = [[L._coord(L.lon0, L.i0 + i), L._coord(L.lat0, L.j0 + j)] for i in range(-1, L.nx + 1) for j in range(-1, L.ny + 1)]
+    other_big = CartesianGrid2D.from_origins(numpy.array(grown), dh=L.fdh)
     for in_place in (True, False):
-        for via in ("arg", "bound"):
-            src = CSEPCatalog(data=list(events), region=region if via == "bound" else None)
+        for via in ("arg", "bound", "arg_over_far", "arg_over_big"):
+            bound_to = {"arg": None, "bound": region, "arg_over_far": other_far, "arg_over_big": other_big}[via]
+            src = CSEPCatalog(data=list(events), region=bound_to)
             o = call(lambda: src.filter_spatial(None if via == "bound" else region, in_place=in_place))
             if not o.ok:
                 ctx.unexpected(o, "filter_spatial")
                 continue
             got = [int(t) for t in o.value.get_epoch_times() if int(t) not in amb]
             if got != keep:
-                ctx.violation("filter_spatial_wrong", {"got": got[:10], "want": keep[:10], "n_got": len(got), "n_want": len(keep)})
+                ctx.violation("filter_spatial_wrong" + (":region_argument_ignored" if via.startswith("arg_over") else ""),
+                              {"via": via, "got": got[:10], "want": keep[:10], "n_got": len(got), "n_want": len(keep)})
             elif not same([r for r in rows(o.value) if r[1] not in amb], [list(events[i]) for i in keep]):
                 ctx.violation("filter_spatial_changed_fields", None)
             if not in_place and src.event_count != len(events):
